@@ -198,7 +198,7 @@ def gen_mix(rng, size=1.0, weights=None, body_weights=None, wr_prob=0.3):
         elif x < 0.94: out.append("top wbroadcast %d %d" % (g.ty(), g.newpid()))
         elif x < 0.97: out.append("top wentevent %s %d %d" % (g.anyref(), g.ty(), g.newpid()))
         else:
-            l = parents.line(g.eref(), g.eref())
+            l = parents.line(g.anyref(), g.anyref())      # also systems / reactors as parents and children
             if l: out.append(l)
     out.append("top frameend")
     return "\n".join(out) + "\n"
@@ -216,6 +216,10 @@ def gen_signals(rng):
             # a ref-counted system command (`spawn_rc_system_command`): the harness recognises this pair of operations
             out += ["top acts 1", "spawnsys 0", "top sigprepare s%d" % nsys]; nsys += 1; nsig += 1
         elif x < 0.09 and nsys: out += ["top acts 1", "run s%d" % rng.randrange(nsys)]
+        elif x < 0.13 and nsys:
+            # a plain entity (or another system) as a child of a ref-counted system command: collected with it
+            l = parents.line(rng.choice(["e%d" % rng.randrange(n), "s%d" % rng.randrange(nsys)]), "s%d" % rng.randrange(nsys))
+            if l: out.append(l)
         elif x < 0.22 or nsig == 0: out.append("top sigprepare e%d" % rng.randrange(n)); nsig += 1
         elif x < 0.40: out.append("top sigclone a%d" % rng.randrange(nsig))
         elif x < 0.62: out.append("top sigdrop a%d" % rng.randrange(nsig))
@@ -650,11 +654,25 @@ def gen_appreact(rng):
         out.append("top appreactor %d %s" % (d, " ".join(ts))); nS += 1
     setup = ["spawn"] * nE + ["insert e%d %d 0" % (e, ty) for e in range(nE) for ty in range(NTY)]
     out.append("top acts %d" % len(setup)); out += setup
+    # half of the time: app reactors with entity-scoped triggers only, whose entities are then despawned — `add_reactor` is
+    # persistent, so the reactor (and its state) must outlive every one of its triggers
+    scoped = rng.random() < 0.5
+    if scoped:
+        for _ in range(rng.randint(1, 2)):
+            e = rng.randrange(nE)
+            t = rng.choice(["emut:e%d:%d" % (e, rng.randrange(NTY)), "eev:e%d:%d" % (e, rng.randrange(NTY)), "dsp:e%d" % e,
+                            "eev:e%d:0 dsp:e%d" % (e, e), "erem:e%d:%d eins:e%d:%d" % (e, rng.randrange(NTY), e, rng.randrange(NTY))])
+            out.append("top appreactor %d %s" % (rng.randrange(g.ndefs), t)); nS += 1
     for _ in range(rng.randint(3, 7)):
         sc = [fire() for _ in range(rng.randint(1, 2))]
+        if scoped and rng.random() < 0.35: sc.append("despawn e%d" % rng.randrange(nE))
         out.append("top acts %d" % len(sc)); out += sc
         if rng.random() < 0.2: out.append("top appreactor %d bc:%d" % (rng.randrange(g.ndefs), rng.randrange(NTY)))
+        if scoped and rng.random() < 0.3: out.append("top frameend")
     out.append("top frameend")
+    if scoped:
+        sc = [fire() for _ in range(2)]
+        out.append("top acts %d" % len(sc)); out += sc; out.append("top frameend")
     return "\n".join(out) + "\n"
 
 UPDATE = ["top update", "top cleartrackers"]   # `App::update()`: the schedules, then `World::clear_trackers`
@@ -701,6 +719,9 @@ def gen_frames(rng):
         watched = "e%d" % rng.randrange(nE)
         setup.append("on %s %d dsp:%s" % (rng.choice("ppc"), rng.randrange(g.ndefs), watched)); nS += 1
     out.append("top acts %d" % len(setup)); out += setup
+    if rng.random() < 0.3:
+        # an entity as a child of a reactor: a cleanup / revokable reactor that is collected takes its descendants with it
+        out.append("top wsetparent e%d s%d" % (rng.randrange(nE), rng.randrange(nS)))
     nsig = 0
     for _ in range(rng.randint(3, 9)):
         x = rng.random(); e = "e%d" % rng.randrange(nE)
